@@ -165,11 +165,14 @@ func (in *interp) errResp(er *ErrResp) {
 		})
 		return
 	}
-	if len(er.Headers) == 0 && er.Body == nil {
+	if len(er.Headers) == 0 && er.Body == nil && er.ContentType == "" {
 		dsl.Response(er.Name, er.Code)
 		return
 	}
 	dsl.Response(er.Name, er.Code, func() {
+		if er.ContentType != "" {
+			dsl.ContentType(er.ContentType)
+		}
 		for _, h := range er.Headers {
 			dsl.Header(mapped(h))
 		}
